@@ -345,7 +345,8 @@ CLAIMED = {
         technique='Lean 4 proof: producer invariants (claims tile, cursor = published prefix) for every schedule; the gating list of the producer '
                   '(= the last stage, Props/C13Gen.lean), the bitmap (Gen/BitMap.lean) and the single-producer sequencer\'s arithmetic and loop conditions '
                   '(tools/rs2lean_spseq.py, Gen/SpSeq.lean; Props/C14Gen.lean: the model\'s producer steps compute exactly these, and the claims of any history '
-                  'of next calls tile) regenerated from the source on every run + trace replay',
+                  'of next calls tile) and the multi-producer sequencer\'s has_capacity / next / drain / publish expressions and conditions (tools/rs2lean_mpseq.py, '
+                  'Gen/MpSeq.lean, Props/C14MGen.lean; publish fail-open when restructured) regenerated from the source on every run + trace replay',
         text='Single-producer sequencer, every configuration and schedule: c14_claims_tile (ranges returned by next partition '
              '[0, next_write) into consecutive ranges of the requested lengths), c14_cursor_monotone, c14_cursor_is_published_prefix, '
              'c14_cursor_eq_highest_claimed. Multi-producer sequencer, any number of writer threads, every interleaving of the '
